@@ -88,7 +88,18 @@ fn main() {
         "C02" => engines::e1::run_c02(&a, &shared),
         "C03" => engines::e1::run_c03(&a, &shared),
         "C11" => engines::e1::run_c11(&a, &shared),
-        "C12" => engines::e1::run_c12_graphs(&a, &shared),
+        "C12" => {
+            {
+                let mut r = shared.lock().unwrap();
+                r.rule = "(i) full HasDiscoveries truth table; (ii)-(iv) every GraphModel in the stated space x finish variants / target_state_count 1..k / target_max_depth 1..k x strategies; (v) seeds x 2 choosers, each run twice; (vi) timeouts under the controlled scheduler (E2); non-trivial = |R| >= 2".into();
+                r.bounds = serde_json::json!({"truth_table": "6 variants (AllOf/AnyOf over every subset of 3 names) x <=3 properties of every kind x every discovered subset", "graphs": "n<=3 (n=4 with few edges)", "targets": "1..4 (thorough 1..8)", "depths": "1..3 (thorough 1..5)", "seeds": "0..15 (thorough 0..63) x {UniformChooser, recording chooser}"});
+            }
+            if a.shard == 0 {
+                engines::c12::truth_table(&shared);
+            }
+            engines::c12::seed_replay(&a, &shared);
+            engines::e1::run_c12_graphs(&a, &shared);
+        }
         "C13" => engines::e1::run_c13(&a, &shared),
         other => {
             eprintln!("unknown property {other}");
